@@ -280,6 +280,12 @@ class HTTPRequestParser:
             if connection.lower() != "keep-alive":
                 self.connection_close = True
 
+        if version != "1.1" and "TRANSFER_ENCODING" in headers:
+            # RFC 9112 section 6.1: a Transfer-Encoding in a message that is
+            # not HTTP/1.1 means the framing is faulty; process this one
+            # message and close the connection afterwards.
+            self.connection_close = True
+
         if version == "1.1":
             # since the server buffers data from chunked transfers and clients
             # never need to deal with chunked requests, downstream clients
